@@ -98,7 +98,27 @@ def token_cast_checks(rnd, n):
                 break
         if len(out) >= 2:
             break
-    return out, len(vals) * 2
+    # the non-scalar token forms: "!" (existence), /regex/ (slashes stripped), JSON-like values and whole JSON filters; a JSON-like key is refused
+    forms = [(["k"], {"k": {"$exists": True}}), (["k", "!"], {"k": {"$exists": True}}), (["k", "/ab+c/"], {"k": {"$regex": "ab+c"}}), (["k", "//"], {"k": {"$regex": ""}}),
+             (["k", '{"$lt": 3}'], {"k": {"$lt": 3}}), (["k", "[1, 2]"], {"k": [1, 2]}), (['{"a": {"$gt": 1}}'], {"a": {"$gt": 1}}),
+             (["a", "1", "b", "/x/", "c"], {"a": 1, "b": {"$regex": "x"}, "c": {"$exists": True}}), (["a.b", "true", "doc.c", "null"], {"a.b": True, "doc.c": None})]
+    for toks, want in forms:
+        try:
+            with contextlib.redirect_stderr(io.StringIO()):
+                got = parse_filter_arg(toks)
+            got = dict(got)
+        except Exception as e:
+            got = f"raised {type(e).__name__}: {e}"
+        if got != want and len(out) < 2:
+            out.append((f"cast:form:{' '.join(toks)[:40]}", f"command-line tokens {toks} parse to {got!r}, the mapping spelling is {want!r}"))
+    try:
+        with contextlib.redirect_stderr(io.StringIO()):
+            parse_filter_arg(['{"a": 1}', "2"])
+        if len(out) < 2:
+            out.append(("cast:form:json-key", "a JSON expression used as a key is not refused"))
+    except ValueError:
+        pass
+    return out, len(vals) * 2 + len(forms) + 1
 
 
 def run(tier="quick", seed=0):
